@@ -141,6 +141,7 @@ type NotifyRecorder struct {
 }
 
 func (n *NotifyRecorder) add(e NotifyEvent) {
+	n.k.YieldPoint("yield@notify-handler", n.k.P.YieldNotify)
 	n.mu.Lock()
 	e.Step = n.k.StepAny()
 	n.Events = append(n.Events, e)
